@@ -10,20 +10,75 @@ import Gozod.Drv.C08
 namespace Gozod.Drv.C12
 open Gozod.Store Gozod.Drv.C08
 
+/-! registry entries and registry-writing checks as the harness codes them:
+    entry `-` | `<id>.<title>.<descr>.<e1>+<e2>+…`; check `D<descr>` | `M<id>.<title>.<descr>.<examples>`;
+    the conv step lists the visited schemas that carry such checks: `<j>=<entry before>/<check>/<check>…,<j>=…` -/
+
+def parseGMeta (s : String) : Option GMeta :=
+  match s.splitOn "." with
+  | [a, b, c, e] => do
+    let a ← a.toNat?
+    let b ← b.toNat?
+    let c ← c.toNat?
+    let es ← ((e.splitOn "+").filter (· != "")).mapM (·.toNat?)
+    some ⟨a, b, c, es⟩
+  | _ => none
+
+def parseEntry (s : String) : Option (Option GMeta) :=
+  if s == "-" then some none else (parseGMeta s).map some
+
+def parseMetaCheck (s : String) : Option MetaCheck :=
+  if s.startsWith "D" then (s.drop 1).toString.toNat?.map .describe
+  else if s.startsWith "M" then (parseGMeta (s.drop 1).toString).map .gmeta
+  else none
+
+def showGMeta : Option GMeta → String
+  | none => "-"
+  | some m => s!"{m.id}.{m.title}.{m.descr}.{"+".intercalate (m.examples.map toString)}"
+
+/-- one visited schema: (live index, entry before, registry-writing checks in order) -/
+def parseVisit (s : String) : Option (Nat × Option GMeta × List MetaCheck) :=
+  match s.splitOn "=" with
+  | [j, rest] =>
+    match rest.splitOn "/" with
+    | pre :: cks => do
+      let j ← j.toNat?
+      let pre ← parseEntry pre
+      let cks ← cks.mapM parseMetaCheck
+      some (j, pre, cks)
+    | [] => none
+  | _ => none
+
+def parseVisits (s : String) : Option (List (Nat × Option GMeta × List MetaCheck)) :=
+  if s == "0" then some [] else (s.splitOn ",").mapM parseVisit
+
+def insertSorted (x : Nat) : List Nat → List Nat
+  | [] => [x]
+  | y :: ys => if x < y then x :: y :: ys else if x == y then y :: ys else y :: insertSorted x ys
+
 def stepModel12 (cfg : Cfg) (st : St) (toks : List String) : Option St :=
   match toks with
-  | [recv, "conv", _opt, _, _, _, _, _, _] => do
+  | [recv, "conv", _opt, _, metas, _, _, _, _] => do
     let i ← recv.toNat?
     let s ← st.live[i]?
+    let visits ← parseVisits metas
     let (σ', s', _) := convert cfg st.σ s
     let before := st.live.map (obs st.σ.heap)
     let after := st.live.map (obs σ'.heap)
     let noBag (o : Obs) : Obs := { o with bag := none }
-    let changed := (List.range st.live.length).filter (fun j => before[j]?.map noBag != after[j]?.map noBag)
+    let changed0 := (List.range st.live.length).filter (fun j => before[j]?.map noBag != after[j]?.map noBag)
     let bagChanged := (List.range st.live.length).filter (fun j => before[j]?.map (·.bag) != after[j]?.map (·.bag))
+    -- the registry-writing callbacks of every visited schema (`annotateEntry`); aliases of a schema in the live list
+    -- (same identity) change with it
+    let posts := visits.map (fun v => (v.1, v.2.1, annotateEntry v.2.1 v.2.2))
+    let regChanged := (posts.filter (fun p => p.2.1 != p.2.2)).map (·.1)
+    let withAliases := (List.range st.live.length).filter (fun j =>
+      regChanged.any (fun k => match st.live[j]?, st.live[k]? with | some a, some b => a.self == b.self | _, _ => false))
+    let changed := (withAliases ++ regChanged).foldl (fun acc x => insertSorted x acc) changed0
     -- the document is a function of the observation: equal to the isolated conversion iff the observation is
     let same := (obs σ'.heap s').checks == (obs st.σ.heap s).checks   -- checks never change; bag effects show in `changed`
-    let g := s!"g{idxList bagChanged}"
+    let r := if posts.isEmpty then "" else "r" ++ ",".intercalate (posts.map (fun p => s!"{p.1}={showGMeta p.2.2}"))
+    let g := s!"g{idxList bagChanged}{r}"
     some { st with σ := σ', verdicts := st.verdicts ++ [s!"{if same then 1 else 0}:{idxList changed}"],
                    structs := st.structs ++ [g] }
   | [_recv, "parse", _, _, _, _, _, _, _] =>
